@@ -221,7 +221,7 @@ def _seeded(c, case, model, gen):
             k += 1
             s = dict(jargs)
             for n, d in params.items():
-                if d in ('real', 'val') and n in model:
+                if d in ('real', 'val', 'val+') and n in model:
                     s[n] = fx(model[n])
                 elif d in ('nat', 'int') and n in model:
                     s[n] = int(model[n])
@@ -324,10 +324,31 @@ def check(run, cfg):
     not_proved = [(ob, r) for ob, r in zip(obligations, results) if r['status'] != 'proved']
     by_func = {}
     for ob, r in not_proved:
-        by_func.setdefault(ob.func, []).append((ob, r))
+        by_func.setdefault(getattr(ob, 'cname', ob.func), []).append((ob, r))
     for func, items in by_func.items():
         hard = [x for x in items if x[1]['status'] in ('failed', 'failed-candidate')]
         soft = [x for x in items if x[1]['status'] not in ('failed', 'failed-candidate')]
+        if not hard and soft and not func.startswith('lemma:'):
+            # nothing refuted, something undecided: an undecided obligation is never a violation by itself, but a concrete
+            # input on which the real function breaks its contract is one; it is reported under the first undecided obligation
+            import re as _re
+            run.failing_cases = getattr(run, 'failing_cases', {})
+            run.failing_cases[func] = set(m.group(1) for ob, r in soft for m in [_re.search(r'\[([^\]]*)\]', ob.name)] if m)
+            try:
+                jargs, out, bad, seen = witness_search(run, func, cfg, '', 4000 if quick else 40000)
+            except Unsupported as e:
+                jargs = None
+                run.errors.append('witness search: %s' % e)
+            if jargs is not None:
+                ob, r = soft[0]
+                path = run.write_replay(ob.name, dict(
+                    property=prop, obligation=ob.name, function=func, what=ob.note, line=ob.line,
+                    solver=dict(status=r['status'], backend=r.get('backend'), model=r['info']), inputs_tried=seen,
+                    failing_input=jargs, native_outcome=out, violated=bad, case=getattr(run, 'witness_case', None),
+                    note='the obligation is undecided by the solvers; the violation is the concrete input below, on which the '
+                         'real function breaks the postcondition of its contract',
+                    replay_cmd='python3-vt -m dvc.check %s --replay <this file>' % prop))
+                run.violations.append((ob.name, path, True))
         for ob, r in soft:
             run.undecided.append(dict(obligation=ob.name, reason=r['info'][:300]))
         if not hard:
@@ -341,7 +362,7 @@ def check(run, cfg):
         limit = 4000 if quick else 40000
         import re as _re
         run.failing_cases = getattr(run, 'failing_cases', {})
-        run.failing_cases[func] = set(m.group(1) for ob, r in hard for m in [_re.search(r'\[([^\]]*)\]$', ob.name)] if m)
+        run.failing_cases[func] = set(m.group(1) for ob, r in hard for m in [_re.search(r'\[([^\]]*)\]', ob.name)] if m)
         try:
             jargs, out, bad, seen = witness_search(run, func, cfg, hard[0][1]['info'], limit)
         except Unsupported as e:
